@@ -71,6 +71,14 @@ type scenario struct {
 
 const scratchPart = 64000
 
+// finding tags by deviation class (a tag is set only when every deviating read of a case deviates that way)
+var causeTags = map[string]string{
+	"F9": "F9:last-part-overread", "F10": "F10:stops-at-empty-part",
+	"F4": "C02-F4:invalid-event-arguments-not-stored", "F6": "C02-F6:error-text-cut",
+	"F7": "C02-F7:error-event-with-unparsable-name-unreadable", "F7b": "C02-F7b:original-name-split-differently",
+	"F8": "C02-F8:argument-emptied-marks-not-stored",
+}
+
 var origRe = regexp.MustCompile(` orig=\S+`)
 
 func putCode(err error) (uint64, string) {
@@ -340,9 +348,7 @@ func runLog(sc *scenario) (string, []string, error) {
 				}
 				probes++
 				if r.decodeStored(probes, append([]byte{}, rawRow...)) == "error" {
-					d.StoredDigest = 0
-				} else {
-					d.Cause = ""
+					d.StoredDigest, d.Cause = 0, "F7"
 				}
 			}
 			store(lk{false, uint64(s.Part)}, s.POff, d)
@@ -382,21 +388,22 @@ func runLog(sc *scenario) (string, []string, error) {
 		}
 	}
 	// a finding tag only when every deviating read of the case deviates in that one way
-	switch {
-	case len(classes) == 1 && classes["F9"]:
-		tags["F9:last-part-overread"] = true
-	case len(classes) == 1 && classes["F10"]:
-		tags["F10:stops-at-empty-part"] = true
-	case len(classes) == 1 && classes["F4"]:
-		tags["C02-F4:invalid-event-arguments-not-stored"] = true
-	case len(classes) == 1 && classes["F6"]:
-		tags["C02-F6:error-text-cut"] = true
-	case len(classes) == 1 && classes["F7"]:
-		tags["C02-F7:error-event-with-unparsable-name-unreadable"] = true
-	case len(classes) == 1 && classes["F4+F6"]:
-		tags["C02-F4:invalid-event-arguments-not-stored"] = true
-		tags["C02-F6:error-text-cut"] = true
-	case len(classes) > 0:
+	if len(classes) == 1 {
+		for cls := range classes {
+			var ts []string
+			for _, c := range strings.Split(cls, "+") {
+				if t, ok := causeTags[c]; ok {
+					ts = append(ts, t)
+				} else {
+					ts = []string{"read-mismatch"}
+					break
+				}
+			}
+			for _, t := range ts {
+				tags[t] = true
+			}
+		}
+	} else if len(classes) > 1 {
 		tags["read-mismatch"] = true
 	}
 	return fmt.Sprintf("TLog %s %s", kit.Bool(!sc.PLogCacheOff), kit.List(terms)), sortedTags(tags), nil
@@ -519,8 +526,12 @@ func runCodec(sc *scenario) (string, []string, error) {
 	if dput.Digest != dread.Digest && dput.DigestNoFlags == dread.DigestNoFlags && dwlog.Digest == dread.Digest && dput.Coq != dread.Coq {
 		tags["C02-F3:cud-activation-flags-lost"] = true
 	}
-	if dput.Digest != dread.Digest && dput.StoredDigest == dread.Digest && dwlog.Digest == dread.Digest && dput.Cause == "F4" {
-		tags["C02-F4:invalid-event-arguments-not-stored"] = true
+	if dput.Digest != dread.Digest && dput.StoredDigest == dread.Digest && dwlog.Digest == dread.Digest && dput.Cause != "" {
+		for _, c := range strings.Split(dput.Cause, "+") {
+			if t, ok := causeTags[c]; ok {
+				tags[t] = true
+			}
+		}
 	}
 	// append what a range read delivered (such an event keeps no bytes: PutWlog encodes it again) to the
 	// WLog of a second, empty storage and read that back
